@@ -110,7 +110,7 @@ func values(quick bool) []ref.Val {
 func Main(r *core.Run) {
 	quick := r.Quick()
 	vals := values(quick)
-	r.Rule("values: every tree ≤4/≤5 nodes over 13 leaves + every alphabet scalar (incl. uint64>int64, NaN/±Inf, arbitrary-byte strings) at every position kind; builder programs by deviation bound: default route, every single deviation at every position (AssignNode of prebuilt basic/kind-specific/foreign node, key via AssembleKey+AssignString / AssignNode(basic|foreign), size hint -1/0/exact+2), every pair of deviations (values ≤4 nodes; thorough: ≤5), each also on a Reset-reused builder; prototypes basicnode Any and kind-specific. Then DeepEqual/Copy agreement over all pairs of a 200-value set × implementation pairs. Non-trivial = a container with ≥1 child or a deviation from the default route; distinct by (value, prototype, routes, reuse).")
+	r.Rule("values: every tree ≤4/≤5 nodes over 13 leaves + every alphabet scalar (incl. uint64>int64, NaN/±Inf, arbitrary-byte strings) at every position kind; builder programs by deviation bound: default route, every single deviation at every position (AssignNode of prebuilt basic/kind-specific/foreign node, key via AssembleKey+AssignString / AssignNode(basic|foreign), size hint -1/0/exact+2), every pair of deviations (values ≤4 nodes; thorough: ≤5), each also on a Reset-reused builder; prototypes basicnode Any and kind-specific; the same single deviations on typed builders (bindnode over the quick schema families, type and representation level). Then DeepEqual/Copy agreement over all pairs of a 200-value set × implementation pairs. Non-trivial = a container with ≥1 child or a deviation from the default route; distinct by (value, prototype, routes, reuse).")
 	r.Assume("uint64 values above MaxInt64 are in the read-back domain (AsUint) but outside DeepEqual/Copy (AsInt overflows by design)")
 	core.ParallelFor(len(vals), func(i int) {
 		v := vals[i]
